@@ -169,6 +169,15 @@ fn cases(thorough: bool) -> (Vec<Case>, Value) {
     }
     let levels: &[u32] = &[0, 5, 11];
     let mut out = Vec::new();
+    // the same flushes issued through helpers::StreamWriter::flush (appends in 7-byte writes); layers
+    // without encryption, where the oracle does not need the reference block layout
+    for p in progs.iter().step_by(5) {
+        let mut q = p.clone();
+        q.stream_writer = true;
+        for l in [L4::None, L4::Compress] {
+            out.push(Case { p: q.clone(), cfg: Cfg::lvl(l, 5) });
+        }
+    }
     for p in progs {
         for l in L4::ALL {
             let lv: &[u32] = if l.compressed() { levels } else { &[5] };
@@ -180,7 +189,7 @@ fn cases(thorough: bool) -> (Vec<Case>, Value) {
     let bounds = json!({
         "ladder": "one-file and two-interleaved-file programs with piece sizes {1,7,chunk+1,block+1,600} x 3 entropies, a flush at every position (thorough: every pair of positions)",
         "tree": "all valid programs with <=2 (thorough 3) files, <=4 (5) ops, <=2 appends of sizes {1,chunk+1,300}, entropies constant/noise(/pattern), a flush at every position",
-        "configurations": "4 layer combinations x levels {0,5,11}; both repair modes when encrypted",
+        "configurations": "4 layer combinations x levels {0,5,11}; both repair modes when encrypted; every fifth program also with appends and flushes going through helpers::StreamWriter (layers none / compress)",
     });
     (out, bounds)
 }
